@@ -36,6 +36,7 @@ def cases(tier, seed):
             for key in (['ed25519_0', 'rsa1024_0', 'ecdsa_p256_0'] if tier == 'quick' else pool.SIGNERS):
                 cs.append({'t': 'object', 'kind': kind, 'key': key, 'hs': hs})
     cs.append({'t': 'confusion'})
+    cs.append({'t': 'header_isolation'})
     # corruption sweeps: three blocks, split in position ranges
     for blk in ('sig', 'msg', 'pub'):
         for part in range(8):
@@ -149,6 +150,68 @@ def compare_loads(ctx, kind, obj, text, where):
             ctx.fail('cleartext-differs-after-load', {'where': where, 'variant': vn})
 
 
+def _header_isolation(ctx, pgpy):
+    """an object's armor carries the header lines supplied to *that object*: objects derived from one another (public half, copy, encrypted /
+    decrypted / re-loaded form, signature added) are edited in place after the derivation, in either order, and each must keep its own set"""
+    import copy
+    from pgpy.constants import CompressionAlgorithm
+    k = pgpy.PGPKey.from_blob(bytes(pool.pgpy_key('ed25519_0', sub='cv25519_0', fresh=True, uid='header isolation')))[0]
+    msg = pgpy.PGPMessage.new(b'header isolation', compression=CompressionAlgorithm.Uncompressed, format='b')
+    sig = k.sign('doc')
+
+    def pairs():
+        kk = copy.copy(k)
+        yield 'private key / its public half', kk, kk.pubkey
+        kk = copy.copy(k)
+        pub = kk.pubkey
+        yield 'public half / private key (reverse order of edits)', pub, kk
+        kk = copy.copy(k)
+        yield 'key / copy', kk, copy.copy(kk)
+        kk = copy.copy(k)
+        yield 'key / re-loaded from its armor', kk, pgpy.PGPKey.from_blob(str(kk))[0]
+        kk = copy.copy(k)
+        yield 'public half / second public half of the same key', kk.pubkey, kk.pubkey
+        m = copy.copy(msg)
+        yield 'message / copy', m, copy.copy(m)
+        m = copy.copy(msg)
+        yield 'message / encrypted form', m, k.pubkey.encrypt(m)
+        m = copy.copy(msg)
+        e = k.pubkey.encrypt(m)
+        yield 'encrypted message / decrypted form', e, k.decrypt(e)
+        m = copy.copy(msg)
+        e = m.encrypt('pw')
+        yield 'message / passphrase-encrypted form', m, e
+        s1 = copy.copy(sig)
+        yield 'signature / copy', s1, copy.copy(s1)
+        m = copy.copy(msg)
+        s2 = k.sign(m)
+        yield 'message / signature made over it', m, s2
+    for label, a, b in pairs():
+        for order in ('a-first', 'b-first'):
+            x, y = (a, b) if order == 'a-first' else (b, a)
+            sets = {}
+            for name, o, hs in (('x', x, [('Comment', 'first object only'), ('Version', 'one')]), ('y', y, [('Comment', 'SECOND object only'), ('MessageID', 'abc')])):
+                o.ascii_headers.clear()
+                for kx, vx in hs:
+                    o.ascii_headers[kx] = vx
+                sets[name] = hs
+            # more in-place edits on x after y got its own
+            x.ascii_headers.update({'Hash': 'SHA256'})
+            del x.ascii_headers['Hash']
+            for name, o in (('x', x), ('y', y)):
+                ctx.count('evaluations')
+                ctx.count('header_isolation_checked')
+                try:
+                    dd = armor.dearmor(str(o))
+                except wire.Malformed as e:
+                    ctx.fail('armor-unreadable', {'where': label, 'err': str(e)})
+                    continue
+                got = sorted(tuple(h) for h in dd['headers'])
+                if got != sorted(sets[name]):
+                    ctx.fail('armor-carries-header-lines-of-another-object', {'pair': label, 'order': order, 'object': name, 'got': got, 'supplied': sorted(sets[name])})
+    ctx.nontrivial('header-isolation')
+
+
 def run_case(ctx, d):
     import pgpy
     from pgpy.constants import CompressionAlgorithm
@@ -173,6 +236,8 @@ def run_case(ctx, d):
         else:
             ctx.observe('non_ascii_header_load_not_judged')
         ctx.nontrivial(d)
+    elif t == 'header_isolation':
+        _header_isolation(ctx, pgpy)
     elif t == 'confusion':
         objs = {k: _objects(k, 'ed25519_0', 0) for k in ('pub', 'sig', 'msg')}
         for src, o in objs.items():
